@@ -189,6 +189,7 @@ func runScenarioIn(t *testing.T, sc *Scenario, h *History) {
 			ch.S2C = halves[i][0].wr.record()
 			ch.SrvLateWrites = halves[i][0].lateWrites
 			ch.SrvBlocked, ch.SrvBlockedTO = halves[i][0].blocked, halves[i][0].blockedTimeouts
+			ch.SrvBlockedUnderLock = halves[i][0].blockedUnderLock + halves[i][0].unboundedUnderLock
 		}
 	}()
 
@@ -202,6 +203,12 @@ func runScenarioIn(t *testing.T, sc *Scenario, h *History) {
 				points[p] = true
 			}
 		}
+		smtp.VerifNewConn = func(c *smtp.Conn) {
+			if sc := simConnOf(c.Conn()); sc != nil {
+				sc.owner = c
+			}
+		}
+		defer func() { smtp.VerifNewConn = nil }()
 		smtp.VerifYield = func(point string) {
 			if point == "conn.woken" {
 				// The command loop was woken by another goroutine through the library's own
@@ -286,6 +293,7 @@ func runScenarioIn(t *testing.T, sc *Scenario, h *History) {
 			srvEnd.rd.lat = cs.Lat
 			srvEnd.wr.lat = cs.LatBack
 			srvEnd.rd.caps = cs.SrvCaps
+			srvEnd.rd.eofWithData = cs.SrvEOFWithData
 			srvEnd.faults = cs.SrvFaults
 			halves[i] = [2]*SimConn{srvEnd, cliEnd}
 			ch := &ConnHistory{ID: i, TLSSent: -1, TLSRecv: -1, SrvCloseSeq: -1}
